@@ -5,7 +5,7 @@
 # Prints a one-line verdict; exit 0 iff all of it holds.  The worktree is left clean.
 set -u
 D=$(realpath "$1"); shift
-WT=/var/tmp/vps/seedverify
+WT=${SEEDVERIFY_WT:-/var/tmp/vps/seedverify}
 J=${JOBS:-8}
 if [ ! -d $WT ]; then mkdir -p /var/tmp/vps; git -C /repo worktree add --detach -f $WT HEAD >/dev/null 2>&1 || exit 3; fi
 git -C $WT checkout -q --detach $(git -C /repo rev-parse HEAD) 2>/dev/null; git -C $WT checkout -- . ; git -C $WT clean -fdq -e _build
